@@ -304,6 +304,8 @@ func (x *xtr) block(stmts []ast.Stmt, k func() string) string {
 		return x.rangeStmt(t, rest)
 	case *ast.TypeSwitchStmt:
 		return x.typeSwitch(t, rest)
+	case *ast.SwitchStmt:
+		return x.ifStmt(x.switchToIf(t), rest)
 	}
 	x.bad(s, "statement %T", s)
 	return ""
@@ -660,9 +662,106 @@ func (x *xtr) failingCall(t *ast.AssignStmt) (*ast.CallExpr, bool) {
 	return nil, false
 }
 
+// `switch { case c1: … case c2, c3: … default: … }` (no tag, no init) is the chain
+// `if c1 {…} else if c2 || c3 {…} else {…}`; `break` / `fallthrough` inside are rejected
+func (x *xtr) switchToIf(t *ast.SwitchStmt) *ast.IfStmt {
+	if t.Init != nil || t.Tag != nil {
+		x.bad(t, "switch with a tag or an init statement (only `switch { case cond: … }`)")
+	}
+	var deflt *ast.CaseClause
+	var cases []*ast.CaseClause
+	for _, cl := range t.Body.List {
+		cc := cl.(*ast.CaseClause)
+		ast.Inspect(cc, func(n ast.Node) bool {
+			if b, ok := n.(*ast.BranchStmt); ok && (b.Tok == token.BREAK || b.Tok == token.FALLTHROUGH || b.Tok == token.GOTO) {
+				x.bad(b, "%s inside a switch", b.Tok)
+			}
+			return true
+		})
+		if cc.List == nil {
+			if deflt != nil {
+				x.bad(cc, "two default clauses")
+			}
+			deflt = cc
+			continue
+		}
+		cases = append(cases, cc)
+	}
+	if len(cases) == 0 {
+		x.bad(t, "switch without a case")
+	}
+	var els ast.Stmt
+	if deflt != nil {
+		els = &ast.BlockStmt{Lbrace: deflt.Pos(), List: deflt.Body}
+	}
+	for i := len(cases) - 1; i >= 0; i-- {
+		cc := cases[i]
+		cond := cc.List[0]
+		for _, c := range cc.List[1:] {
+			cond = &ast.BinaryExpr{X: cond, Op: token.LOR, OpPos: c.Pos(), Y: c}
+		}
+		els = &ast.IfStmt{If: cc.Pos(), Cond: cond, Body: &ast.BlockStmt{Lbrace: cc.Pos(), List: cc.Body}, Else: els}
+	}
+	return els.(*ast.IfStmt)
+}
+
+// `v.., err = f(..)` where err is a named error result: every variable is assigned; a failing call
+// leaves the zero value beside its error (the convention `Except` already assumes of `(T, error)`)
+func (x *xtr) callAssign(t *ast.AssignStmt, c *ast.CallExpr) string {
+	fn := c.Fun.(*ast.Ident).Name
+	ft := x.env[fn]
+	n := len(ft.results)
+	if ft.oracle || n == 0 || ft.results[n-1].k != kErr {
+		x.bad(t, "assignment from the effectful callback %s (only `v, err := f(..)`)", fn)
+	}
+	if len(t.Lhs) != n {
+		x.bad(t, "assignment arity")
+	}
+	var names, tys, oks, zeros []string
+	for i, l := range t.Lhs {
+		id, ok := l.(*ast.Ident)
+		if !ok {
+			x.bad(l, "result assigned to a non-variable")
+		}
+		if i == n-1 {
+			if ty, ok := x.env[id.Name]; !ok || ty.k != kErrOpt {
+				x.bad(l, "the error of %s may be assigned (`=`) only to a named error result", fn)
+			}
+			names, tys = append(names, id.Name), append(tys, tErrOpt.lean())
+			break
+		}
+		if id.Name == "_" {
+			x.bad(l, "a result of %s is dropped", fn)
+		}
+		ty, ok := x.env[id.Name]
+		if !ok || !sameTy(ty, ft.results[i]) {
+			x.bad(l, "result %d assigned to %s of another type", i, id.Name)
+		}
+		names, tys = append(names, id.Name), append(tys, parenT(ty.lean()))
+		oks, zeros = append(oks, fmt.Sprintf("v%d_", i)), append(zeros, x.zero(l, ty))
+	}
+	okPat := "_"
+	if len(oks) == 1 {
+		okPat = oks[0]
+	} else if len(oks) > 1 {
+		okPat = "(" + strings.Join(oks, ", ") + ")"
+	}
+	tup := func(vals []string, e string) string {
+		if len(vals) == 0 {
+			return e
+		}
+		return "(" + strings.Join(append(append([]string{}, vals...), e), ", ") + ")"
+	}
+	return fmt.Sprintf("let %s : %s :=\n  match %s with\n  | .ok %s => %s\n  | .error e_ => %s", tupleNames(names), strings.Join(tys, " × "),
+		x.applyFn(c, ident(fn), ft), okPat, tup(oks, "none"), tup(zeros, "some e_"))
+}
+
 func (x *xtr) callIdiom(t *ast.AssignStmt, c *ast.CallExpr, after []ast.Stmt, k func() string) string {
 	fn := c.Fun.(*ast.Ident).Name
 	ft := x.env[fn]
+	if t.Tok == token.ASSIGN {
+		return joinLines(x.callAssign(t, c), x.block(after, k))
+	}
 	n := len(ft.results)
 	if n == 0 || ft.results[n-1].k != kErr {
 		x.bad(t, "effectful callback %s without an error result", fn)
@@ -773,6 +872,14 @@ func isZeroLit(e ast.Expr) bool {
 
 func (x *xtr) retValue(s *ast.ReturnStmt) string {
 	rs := x.results
+	if x.namedRes != nil && len(s.Results) == 0 {
+		// bare return: the current values of the named results
+		v := tupleNames(x.namedRes)
+		for _, ex := range x.extras {
+			v = "(" + v + ", " + ident(ex) + ")"
+		}
+		return v
+	}
 	if len(s.Results) != len(rs) {
 		x.bad(s, "return with %d values, want %d (named results are not supported)", len(s.Results), len(rs))
 	}
